@@ -365,6 +365,7 @@ class World:
         self.listener_reverse = listener_reverse
         self.jitter_mode = jitter_mode  # None | 'min' | 'max' | dict(site->'min'/'max')
         self.jitter_draws = 0
+        self.jitter_time_keyed = False
         self._h = hashlib.blake2b(digest_size=16)
         self.keep_log = keep_log
         self.events = []
@@ -416,7 +417,12 @@ class World:
                 return b
             return r.randint(a, b)
 
-        v = self.decide(f"jit/{host}/{site}", draw)
+        if self.jitter_time_keyed:
+            # metamorphic runs: a draw is identified by (host, site, instant, k-th draw at that instant), so an
+            # extra draw in one run does not shift the draws that follow
+            v = self.decide(f"jit/{host}/{site}/{self.loop._now!r}", draw)
+        else:
+            v = self.decide(f"jit/{host}/{site}", draw)
         v = min(max(int(v), a), b)
         self.log("jit", host, site, v)
         return v
